@@ -138,19 +138,26 @@ def analyse (m : Nat) (W : World) : Nat → Analyse
 
 def World.fuel (W : World) : Nat := W.funs.length + 2
 
-/-- `OrderedDict` update: keep the position of the first occurrence, the last value wins -/
-def odSet (l : List (String × Sg)) (k : String) (v : Sg) : List (String × Sg) :=
-  if (aget l k).isSome then l.map (fun kv => if kv.1 = k then (k, v) else kv) else l ++ [(k, v)]
+/-- adding a kept path to the evaluation's path map (`all_store_paths`). Since the `fix:` commit for paths kept
+twice: a path that already has a *different* signature is an error; the same signature is fine. -/
+def odSet (l : List (String × Sg)) (k : String) (v : Sg) : Except DdsErr (List (String × Sg)) :=
+  match aget l k with
+  | some v' => if v' = v then .ok l else .error .overlappingPath
+  | none => .ok (l ++ [(k, v)])
 
 mutual
 /-- `FunctionInteractionsUtils.all_store_paths` -/
-def allStorePaths (acc : List (String × Sg)) : FIS → List (String × Sg)
+def allStorePaths (acc : List (String × Sg)) : FIS → Except DdsErr (List (String × Sg))
   | .mk _ s p subs _ =>
-    let acc' := match p with | some path => odSet acc path s | none => acc
-    allStorePathsL acc' subs
-def allStorePathsL (acc : List (String × Sg)) : List FIS → List (String × Sg)
-  | [] => acc
-  | f :: fs => allStorePathsL (allStorePaths acc f) fs
+    match (match p with | some path => odSet acc path s | none => .ok acc) with
+    | .error e => .error e
+    | .ok acc' => allStorePathsL acc' subs
+def allStorePathsL (acc : List (String × Sg)) : List FIS → Except DdsErr (List (String × Sg))
+  | [] => .ok acc
+  | f :: fs =>
+    match allStorePaths acc f with
+    | .error e => .error e
+    | .ok acc' => allStorePathsL acc' fs
 end
 
 /-! ## The indirect pre-pass: which paths are loaded / produced by the evaluation -/
